@@ -89,21 +89,17 @@ class Ctx:
                     reach(b, seen)
             return seen
         anchors = set()
+        rle_paths = set(g["path"] for g in self.rle_fns())
         for f in facts.user_fns():
             cs = [c["fn"] for c in calls(f["body"])]
             if "core::hash::Hasher::finish" in cs:
                 anchors.add(f["path"])
-            if any(c.endswith("::last_mut") for c in cs) and self.has_struct(f, "directory::Entry"):
+            if f["path"] in rle_paths:
                 anchors.add(f["path"])
             if "core::ops::range::RangeBounds::end_bound" in cs:
                 anchors.add(f["path"])
             if "MaxZError" in f["ret"] and "Result<u8" in f["ret"]:
                 anchors.add(f["path"])
-            for n in walk(f["body"]):
-                if n["k"] in ("Let", "LetCond") and _pat_ctor(n.get("pat"), "serde_json::value::Value::Object"):
-                    anchors.add(f["path"])
-                if n["k"] == "Match" and any(_pat_ctor(a["pat"], "serde_json::value::Value::Object") for a in n["arms"]):
-                    anchors.add(f["path"])
         # every function a rule addresses by its role keeps its identity (it is analysed as a unit and its callers see a call to it)
         anchors |= self._role_anchor_paths()
         ok = set()
@@ -278,6 +274,31 @@ class Ctx:
                     seen.add(h["path"])
                     work.append(h)
         memo[f["path"]] = out
+        return out
+
+    def rle_fns(self):
+        """the run-length merge: a function that looks at the last entry of the list it builds (`last_mut()`, `last()`, or a `[.., last]`
+        slice pattern) and pushes `Entry { .. }`"""
+        out = []
+        for f in self.user_fns():
+            if not self.has_struct(f, "directory::Entry"):
+                continue
+            looks_last = any(c["fn"].endswith(("::last_mut", "::last")) for c in calls(f["body"]))
+            if not looks_last:
+                for n in walk(f["body"]):
+                    pats = []
+                    if n["k"] == "Match":
+                        pats = [a["pat"] for a in n["arms"]]
+                    elif n["k"] in ("Let", "LetCond") and n.get("pat") is not None:
+                        pats = [n["pat"]]
+                    for pt in pats:
+                        q = pt
+                        while q is not None and q.get("k") in ("RefPat", "GuardPat"):
+                            q = q.get("pat")
+                        if q is not None and q.get("k") == "SlicePat" and q.get("rest") and len(q["pats"]) - q.get("nb", 0) - 1 >= 1:
+                            looks_last = True
+            if looks_last and any(c["fn"].endswith("Vec::<T, A>::push") for c in calls(f["body"])):
+                out.append(f)
         return out
 
     def archive_writers(self):
@@ -514,6 +535,34 @@ def _range_pat_facts(v, pay, matched):
     return out
 
 
+def _nested_pat_facts(pat, v):
+    """facts about the payloads of a matched constructor pattern: `Some(Value::Object(m))` also says the payload is an Object"""
+    out = []
+    while pat is not None and pat.get("k") in ("RefPat", "GuardPat"):
+        pat = pat["pat"]
+    if pat is None or pat.get("k") != "TupleStruct":
+        return out
+    ctor = pat.get("ctor") or ""
+    for i, sub in enumerate(pat.get("pats") or []):
+        q = sub
+        while q is not None and q.get("k") in ("RefPat", "GuardPat"):
+            q = q["pat"]
+        if q is None or q.get("k") not in ("TupleStruct", "PathPat", "Struct"):
+            continue
+        vv = _unmut(v)
+        if isinstance(vv, tuple) and vv and vv[0] == "call" and vv[1] == ctor and vv[3] is None and i < len(vv[2]):
+            subv = vv[2][i]
+        elif ctor in ("core::option::Option::Some", "core::result::Result::Ok") and i == 0:
+            subv = v           # Option/Result are modelled at payload level
+        else:
+            subv = ("proj", v, "%s.%d" % (hir.short(ctor), i))
+        kind, pay = _pat_top(q)
+        if kind == "ctor":
+            out.append(("variant", subv, pay, True))
+            out.extend(_nested_pat_facts(q, subv))
+    return out
+
+
 def _slice_pat_facts(v, pay, matched):
     """a slice pattern of minimum length `min` (with or without a `..` rest) matched / did not match the sequence v"""
     mn, rest = pay
@@ -552,6 +601,7 @@ def decision_facts(d):
             out.append(("eq", v, pay))
         elif kind == "ctor":
             out.append(("variant", v, pay, True))
+            out.extend(_nested_pat_facts(d.d.get("pat"), v))
         elif kind == "slice":
             out.extend(_slice_pat_facts(v, pay, True))
         elif kind == "range":
@@ -575,10 +625,14 @@ def decision_facts(d):
             out.extend(_slice_pat_facts(v, pay, d.d["outcome"] is True))
         if kind == "ctor":
             out.append(("variant", v, pay, d.d["outcome"] is True))
+            if d.d["outcome"] is True:
+                out.extend(_nested_pat_facts(d.d.get("pat"), v))
         elif kind == "lit":
             out.append(("eq" if d.d["outcome"] is True else "ne", v, pay))
     elif how == "try":
         out.append(("variant", v, "core::result::Result::Ok", d.d["outcome"] is True))
+    elif how == "entry":
+        out.append(("variant", v, "std::collections::hash::map::Entry::Occupied", d.d["outcome"] is True))
     # Option: not Some ⇔ None
     more = []
     for f in out:
